@@ -350,6 +350,13 @@ func c08Gen(tier string, seed int64) []core.Case {
 			ph["flip"], ph["hold"] = sp.Short, true
 			idh := "flagflip-only/" + proto + "/" + sp.Short
 			cs = append(cs, core.Case{ID: idh, Class: idh, Kind: "flip", P: ph, Cost: flipCfg[proto].cost})
+			// fourth variant: as the second, but only for the messages of the sender with index 0; everybody else's traffic
+			// flows normally, so the round monitor's WaitingFor check (after every delivery) sees the other senders complete
+			// their part of the round while a wrong-channel message sits in the store
+			po := flipCfg[proto].P()
+			po["flip"], po["hold"], po["one"] = sp.Short, true, true
+			ido := "flagflip-one/" + proto + "/" + sp.Short
+			cs = append(cs, core.Case{ID: ido, Class: ido, Kind: "flip", P: po, Cost: flipCfg[proto].cost})
 			// third variant: the genuine copy first, the wrong-channel copy directly after it (a duplicate that took the other path)
 			ca := flipCfg[proto]
 			switch proto { // with a single peer every delivery closes the round
@@ -449,7 +456,7 @@ func c08Run(c core.Case, env *core.Env) core.Result {
 	var release func()
 	if c.Kind == "flip" {
 		if c.P.Bool("hold") {
-			release = c08FlipOnly(&r, w, c.P.Str("flip"))
+			release = c08FlipOnly(&r, w, c.P.Str("flip"), c.P.Bool("one"))
 		} else if c.P.Bool("after") {
 			c08FlipAfter(&r, w, c.P.Str("flip"))
 		} else {
@@ -592,10 +599,10 @@ func c08FlipAfter(r *core.Result, w *sim.World, typ string) {
 // c08FlipOnly replaces every delivery of a message of type `typ` by a copy with the broadcast flag inverted and keeps the
 // genuine copies back. When the run is quiescent, no recipient may have got past the round that needs the message, and
 // each one must still await every sender; the returned function then checks that and releases the genuine copies.
-func c08FlipOnly(r *core.Result, w *sim.World, typ string) func() {
+func c08FlipOnly(r *core.Result, w *sim.World, typ string, senderZeroOnly bool) func() {
 	var genuine []*sim.Event
 	w.Rewrite = func(w *sim.World, m *sim.Msg, to *sim.Node) ([]byte, bool, *tss.PartyID, bool) {
-		if m.Short != typ {
+		if m.Short != typ || (senderZeroOnly && m.From.PID.Index != 0) {
 			return m.Wire, m.Bcast, m.From.PID, false
 		}
 		w.Inject(&sim.Event{Kind: sim.EvDeliver, Node: to, Msg: m, Wire: m.Wire, Bcast: !m.Bcast, FromPID: m.From.PID, Tag: "flip"})
